@@ -46,7 +46,7 @@ def replay_state(args):
         return bad, 0
     B = np.array([dsys.b_float(s, r["b"]) for r in recs])
     est = dsys.make_estimator(dreye, s)
-    rng = ub - lb
+    rng = np.maximum(ub - lb, 0.1)      # (a pinned source, lb = ub, is met to solver accuracy)
     probes = np.array(list(itertools.product(*[(l, (l + u) / 2, u) for l, u in zip(lb, ub)])))
     qprobes = (probes @ A.T + blv) @ Kmat.T
     nfit = 0
